@@ -302,7 +302,7 @@ def plain_run(sc):
 
 def threads(ctx, scs, impl, nthreads):
     good = [(sc, tr) for sc, (tr, info) in zip(scs, impl) if info['final'][0] in (90, 91) and info['activations'] < 1500]
-    expected = [tr[:-1] + [tr[-1][1:]] for _, tr in good]
+    expected = [tr[:-2] + [tr[-2][1:]] for _, tr in good]
     results = [None] * nthreads
     barrier = threading.Barrier(nthreads)
 
